@@ -835,7 +835,12 @@ impl Context {
                 frame = Some(f);
             }
             self.vm.frame_mut().environments.truncate(env_fp);
-            if let Some(frame) = frame {
+            if self.vm.frame().exit_early() {
+                // The host (or native) caller pops this frame without touching the stack,
+                // so release the frame's own slots too, like `handle_return` does.
+                let frame = self.vm.frames.last().expect("frame must exist");
+                self.vm.stack.truncate_to_frame(frame);
+            } else if let Some(frame) = frame {
                 self.vm.stack.truncate_to_frame(&frame);
             }
             return ControlFlow::Break(CompletionRecord::Throw(err));
@@ -934,6 +939,9 @@ impl Context {
             }
 
             if exit_early {
+                self.vm.frame_mut().environments.truncate(env_fp as usize);
+                let frame = self.vm.frames.last().expect("frame must exist");
+                self.vm.stack.truncate_to_frame(frame);
                 return ControlFlow::Break(CompletionRecord::Throw(
                     self.vm
                         .pending_exception
